@@ -397,6 +397,14 @@ func TestC09Pinned(t *testing.T) {
 			pinned(t, "C09", "C09/conformance", mk(o, []gen.Seg{{K: "text", N: n, S: 4, P: 3}}, entry, ""), runC09)
 		}
 	}
+	// uniformly random symbols over a small alphabet, full blocks (see TestC02Pinned)
+	for _, a := range []struct {
+		alpha int
+		level uint32
+	}{{10, 0}, {12, 0}, {26, levels[5]}, {32, levels[9]}} {
+		o := wopts{BS: 4, BlockSum: true, ContentSum: true, Conc: 1, Level: a.level}
+		pinned(t, "C09", "C09/conformance", mk(o, []gen.Seg{{K: "text", N: 48 * 65536, S: uint64(a.alpha), P: a.alpha}}, "write", ""), runC09)
+	}
 	// legacy: empty, small, incompressible exactly 8 MiB, incompressible > 8.36 MB (two blocks), compressible multi-block
 	leg := wopts{BS: 7, Conc: 1, Legacy: true}
 	for _, segs := range [][]gen.Seg{{}, {{K: "text", N: 100, S: 1, P: 4}}, {{K: "rand", N: 8 << 20, S: 9}}, {{K: "rand", N: 8<<20 + 70000, S: 10}}, {{K: "text", N: 8<<20 + 1, S: 2, P: 4}},
